@@ -207,6 +207,19 @@ def _run_cmd(cmd):
     return p.returncode, p.stderr
 
 
+def _compile_width():
+    """Parallel compiler processes: one per core, but no more than the memory available now allows (a translation unit
+    that includes every PhQ header needs 2-3 GB under -O0 with the sanitizers)."""
+    try:
+        for line in open("/proc/meminfo"):
+            if line.startswith("MemAvailable:"):
+                gb = int(line.split()[1]) / 1048576.0
+                return max(2, min(NCPU, int(gb / 3.0)))
+    except Exception:
+        pass
+    return NCPU
+
+
 def build(targets, quiet=False):
     """Build all targets (compile TUs in parallel, then link). Returns {name: path}.
     Raises BuildError with the compiler output on failure."""
@@ -220,7 +233,7 @@ def build(targets, quiet=False):
         log("[build] %d translation units for %d binaries (tree %s)" % (len(jobs), len(todo), tree_hash()))
     errors = []
     killed = []
-    with cf.ThreadPoolExecutor(max_workers=NCPU) as ex:
+    with cf.ThreadPoolExecutor(max_workers=_compile_width()) as ex:
         futs = {ex.submit(_run_cmd, cmd): (t, obj, cmd) for t, obj, cmd in jobs}
         for f in cf.as_completed(futs):
             t, obj, cmd = futs[f]
@@ -229,16 +242,25 @@ def build(targets, quiet=False):
                 killed.append((t, obj, cmd))  # the machine ran out of memory, not the code out of correctness
             elif rc != 0:
                 errors.append((t.name, " ".join(cmd), err))
-    if killed and not errors:
+    for width in (4, 2, 1):
+        if not killed or errors:
+            break
         if not quiet:
-            log("[build] %d compiler processes were killed (memory); retrying them four at a time" % len(killed))
-        with cf.ThreadPoolExecutor(max_workers=4) as ex:
+            log("[build] %d compiler processes were killed (memory); retrying them %d at a time" % (len(killed), width))
+        time.sleep(5)
+        again = []
+        with cf.ThreadPoolExecutor(max_workers=width) as ex:
             futs = {ex.submit(_run_cmd, cmd): (t, obj, cmd) for t, obj, cmd in killed}
             for f in cf.as_completed(futs):
                 t, obj, cmd = futs[f]
                 rc, err = f.result()
-                if rc != 0:
+                if rc != 0 and ("Killed signal" in err or "virtual memory exhausted" in err or "out of memory" in err.lower()):
+                    again.append((t, obj, cmd))
+                    if width == 1:
+                        errors.append((t.name, " ".join(cmd), err))
+                elif rc != 0:
                     errors.append((t.name, " ".join(cmd), err))
+        killed = again
     if errors:
         name, cmd, err = errors[0]
         raise BuildError("compile failed for %s: %s" % (name, cmd), "\n".join(e for _, _, e in errors))
